@@ -363,7 +363,8 @@ func (*BinaryStringExprNode) GetType() NodeType {
 }
 
 func (node *BinaryStringExprNode) IsSeekable() bool {
-	return (node.op == BinaryOpEQ || node.op == BinaryOpNEQ) &&
+	// only an equality can be answered from the seek position; != has to look at every element
+	return node.op == BinaryOpEQ &&
 		(node.left.IsConst() || node.right.IsConst())
 }
 
